@@ -51,6 +51,25 @@ def gen_case(rng, idx, tier):
         start = [end[0] + sgn * nx * rng.randint(1, 3), end[1] + sgn * ny * rng.randint(1, 3)]
         A = {"U": [F(0), F(0), F(1), F(1)], "P": [start, end], "W": None}
         return {"kind": "polylines", "A": cv.enc_curve(A, "float"), "B": cv.enc_curve(B, "float"), "layout": "near-miss"}
+    if r < 0.18:
+        # almost flat arc: a quadratic Bezier whose middle control point is 2e-5..3e-4 off its chord, crossed by a segment
+        x0, x1 = F(rng.randint(-8, -2)), F(rng.randint(2, 8))
+        y0, y1 = F(rng.randint(-3, 3)), F(rng.randint(-3, 3))
+        h = F(rng.randint(2, 30), 100000) * rng.choice([1, -1])
+        A = {"U": [F(0)] * 3 + [F(1)] * 3, "P": [[x0, y0], [(x0 + x1) / 2, (y0 + y1) / 2 + h], [x1, y1]], "W": None}
+        cx = x0 + (x1 - x0) * F(rng.randint(2, 8), 10)
+        B = {"U": [F(0), F(0), F(1), F(1)], "P": [[cx - F(1, 3), F(-6)], [cx + F(1, 2), F(7)]], "W": None}
+        if rng.random() < 0.5:
+            A, B = B, A
+        return {"kind": "bezier", "A": cv.enc_curve(A, "float"), "B": cv.enc_curve(B, "float"), "layout": "flat-arc"}
+    if r < 0.24:
+        # a discontinuous polyline (interior knot of multiplicity 2 with a jump) crossed exactly at the end point of its
+        # left part: the pair (knot, .) is not a meeting point of the curves, A(knot) is the right value
+        L = [F(rng.randint(-5, 5)), F(rng.randint(-5, 5))]
+        A = {"U": [F(0), F(0), F(1), F(1), F(2), F(2)], "P": [[L[0] - 4, L[1] - 1], L, [L[0] + 1, L[1] + 5], [L[0] + 6, L[1] + 6]], "W": None}
+        d = [F(rng.randint(1, 3)), F(rng.randint(-3, -1))]
+        B = {"U": [F(0), F(0), F(1), F(1)], "P": [[L[0] - d[0], L[1] - d[1]], [L[0] + d[0], L[1] + d[1]]], "W": None}
+        return {"kind": "bezier", "A": cv.enc_curve(A, "float"), "B": cv.enc_curve(B, "float"), "layout": "jump-end"}
     if r < 0.75:
         na, nb = rng.randint(1, 4), rng.randint(1, 4)
         A = polyline(rng, na, ((-10, 10), (-10, 10)))
